@@ -3,6 +3,7 @@ package main
 import (
 	"bytes"
 	"fmt"
+	"os"
 	"math/big"
 
 	"github.com/ontio/ontology/common"
@@ -1201,7 +1202,20 @@ func Gen(r *hx.Rand, tier string, i int) string {
 	if tier == "thorough" && i < 2 {
 		return heavyLine(i)
 	}
-	switch k := r.Intn(100); {
+	k := r.Intn(100)
+	switch os.Getenv("C12_ONLY") { // development aid: one line kind only
+	case "X":
+		k = 0
+	case "V":
+		k = 50
+	case "N":
+		k = 80
+	case "W":
+		k = 95
+	case "E":
+		k = 99
+	}
+	switch {
 	case k < 45:
 		return fmt.Sprintf("X %d %s", r.Intn(8)/7, hx.Hex(genProg(r, false, tier == "quick")))
 	case k < 75:
@@ -1211,8 +1225,10 @@ func Gen(r *hx.Rand, tier string, i int) string {
 			gas = 30000000
 		}
 		return fmt.Sprintf("V %d %s", gas, hx.Hex(code))
-	case k < 95:
+	case k < 93:
 		return genNative(r)
+	case k < 97:
+		return genWasmLine(r, tier == "quick")
 	default:
 		return genEvm(r)
 	}
@@ -1276,6 +1292,12 @@ func corpus() []string {
 		nl("removeKeyByRecovery", 3, func(s *common.ZeroCopySink) { vb(s, ontID(1)); vu(s, idx); vb(s, signers) })
 		nl("removeKeyByIndex", 1, func(s *common.ZeroCopySink) { vb(s, ontID(1)); vu(s, idx); vu(s, 1) })
 	}
+	// Deploy transactions with wasm modules that take the validator / the deploy handler down
+	out = append(out,
+		"W 0061736d010000000104016000000503010001070a0106696e766f6b650000 -",
+		"W 0061736d01000000010401600000030201000503010001070b0106696e766f6b6500e8070a040102000b -",
+		"W 0061736d0100000001040160000003020100 -",
+		"W 0061736d01000000010401600000030201000503010001070a0106696e766f6b6500000a040102000b 01")
 	_ = vmt.ArrayType
 	return out
 }
